@@ -119,6 +119,13 @@ def case_vcf(run, i):
         cns, out = path + ".cns", path + ".call.cns"
         with run.monitor_scope():
             TIO.write(seg, cns)
+        if i % 16 == 0:
+            # same rows, chromosomes in string order (chr1, chr10, chr2, ...): reading sorts them, labels must follow
+            with open(cns) as fh:
+                lines = fh.read().splitlines()
+            body = sorted(lines[1:], key=lambda ln: (ln.split("\t")[0], int(ln.split("\t")[1])))
+            with open(cns, "w") as fh:
+                fh.write("\n".join([lines[0]] + body) + "\n")
         argv = ["call", cns, "-v", path, "-o", out, "--min-variant-depth", str(mvd)] + (["-i", str(sid)] if isinstance(sid, str) else []) \
             + (["-n", str(nid)] if isinstance(nid, str) else []) + (["-z", repr(zf)] if zf else [])
         r = cli_plumb.check_cli(run, rt, K, "load_het_snps", argv,
